@@ -6,6 +6,10 @@
   c18.json   {"s": "..."}  → {"ok": json.dumps(s, ensure_ascii=False)}
   c18.qnamecp {"cps": [code points]} → {"ok": {"body": text between QName(" and "), "back": decoded code points}}
   c18.dqcp   {"s": "..."}  → {"ok": [code points]} | {"err": "unmodelled"}   (as c18.dq, surrogates allowed)
+  c18.strrepr   {"s": "..."}   → {"ok": {"repr": repr(s), "back": the str the parser reads it as}}
+  c18.bytesrepr {"bs": [..]}   → {"ok": {"repr": repr(bytes(bs)), "back": [...]}}
+  c18.strlit    {"t": "'...'"} → {"ok": str} | {"err": "unmodelled"}    (a whole str literal)
+  c18.byteslit  {"t": "b'..'"} → {"ok": [bytes]} | {"err": "unmodelled"}
   c18.dq     {"s": "..."}  → {"ok": decoded} | {"err": "unmodelled"}   (body of a "…" literal)
   c18.pyeq   {"world": [], "a": V, "b": V} → {"ok": bool}
 -/
@@ -41,6 +45,22 @@ def getNum (j : Json) : Except String (Option NumV) :=
       pure (some (.fin n d.toNat))
   | _ => .error "bad num"
 
+def getNats (j : Json) (k : String) : Except String (List Nat) := do
+  (← getArr j k).mapM fun x => match x.getNat? with
+    | .ok n => pure n
+    | .error _ => .error "bad nat"
+
+/-- every `str` / `bytes` leaf carries the `repr` the model itself computes -/
+partial def reprsAgree : Val → Bool
+  | .str s r => pyReprStr tblPrintable s == r
+  | .bytes _ bs r => pyReprBytes bs == r
+  | .list xs => xs.all reprsAgree
+  | .tuple xs => xs.all reprsAgree
+  | .set _ xs => xs.all reprsAgree
+  | .dict kvs => kvs.all fun p => reprsAgree p.1 && reprsAgree p.2
+  | .model _ xs => xs.all reprsAgree
+  | _ => true
+
 partial def getVal (j : Json) : Except String Val := do
   let t ← getStr j "t"
   match String.ofList t with
@@ -52,7 +72,7 @@ partial def getVal (j : Json) : Except String Val := do
       | some n => pure (.float n (← getStr j "repr"))
       | none => .error "float without num"
   | "str" => pure (.str (← getStr j "v") (← getStr j "repr"))
-  | "bytes" => pure (.bytes (← getRef j) (← getStr j "repr"))
+  | "bytes" => pure (.bytes (← getRef j) (← getNats j "bs") (← getStr j "repr"))
   | "qname" => pure (.qname (← getStr j "text"))
   | "opaque" => pure (.opaque (← getRef j) (← strList j "callee") (← getStr j "args") (← getNum j))
   | "enum" => pure (.enum (← getRef j) (← getStr j "member"))
@@ -106,11 +126,19 @@ def run (op : String) (a : Json) : Option (Except String Json) :=
       let v ← getVal (a.getObjValD "val")
       let var ← getStr a "var"
       pure <| ok (jObj [
-        ("text", jStr (source W v var)),
+        ("text", match sourceE W v var with | .ok t => jStr t | .error e => jStr (cs!"RAISES:" ++ e.name)),
         ("outcome", jStr (outcome W v)),
         -- the hypotheses of Props.C18.code_rt_partial on this input
-        ("hyps", jObj [("wf", jBool (wf W v)), ("dom", jBool (domOK W v)), ("imports", jBool (importsOK W v))]),
+        ("hyps", jObj [("wf", jBool (wf W v)), ("dom", jBool (domOK W v)), ("renders", jBool (renders W v)), ("nesting", jBool (nestingOK W v)),
+                       ("reprs", jBool (reprsAgree v))]),
         ("imports", jList (fun p => Json.arr #[jStr p.1, jStr p.2]) (importsEnv W v))])
+  | "c18.seq" => some do
+      -- the model is stateless: each render is what a fresh serializer gives
+      let W ← getWorld a
+      let vs ← (← getArr a "vals").mapM getVal
+      pure <| ok (jList (fun v => match sourceE W v cs!"obj" with
+        | .ok t => jStr t
+        | .error e => jStr (cs!"RAISES:" ++ e.name)) vs)
   | "c18.dq" => some do
       let s ← getStr a "s"
       pure <| match decodeDq .normal s with
@@ -139,6 +167,24 @@ def run (op : String) (a : Json) : Option (Except String Json) :=
       let s ← getStr a "s"
       pure <| match decodeCp .normal s with
         | some t => ok (jList jNat t)
+        | none => err "unmodelled"
+  | "c18.strrepr" => some do
+      let s ← getStr a "s"
+      pure <| ok (jObj [("repr", jStr (pyReprStr tblPrintable s)),
+        ("back", match decodeStrLit (pyReprStr tblPrintable s) with | some t => jStr t | none => Json.null)])
+  | "c18.bytesrepr" => some do
+      let bs ← getNats a "bs"
+      pure <| ok (jObj [("repr", jStr (pyReprBytes bs)),
+        ("back", match decodeBytesLit (pyReprBytes bs) with | some t => jList jNat t | none => Json.null)])
+  | "c18.strlit" => some do
+      let t ← getStr a "t"
+      pure <| match decodeStrLit t with
+        | some r => ok (jStr r)
+        | none => err "unmodelled"
+  | "c18.byteslit" => some do
+      let t ← getStr a "t"
+      pure <| match decodeBytesLit t with
+        | some r => ok (jList jNat r)
         | none => err "unmodelled"
   | "c18.pyeq" => some do
       let x ← getVal (a.getObjValD "a")
